@@ -10,11 +10,11 @@ CLAIMED = {
          "Origins/RP IDs come from unambiguously valid pairs, so no verdict depends on the C01 predicate." + TRUST,
          SIM + "seeded ceremony histories, independent RP verifier + store-seam history oracle", "DESIGN.md §6 C02"),
  "C03": ("exploration",
-         "Seeded interleaved registration/authentication histories over several RPs, users and allow lists on the contract-conforming reference store (bare and under every lock wrapper), fault-free and under faults/concurrency; each successful assertion is verified (ECDSA over authData||clientDataHash under the key the simulated RP holds for the returned id, client data, rpIdHash, no AT, id/rawId, user handle) and the no-eligible-credential outcome is checked against a reference model.",
+         "Seeded interleaved registration/authentication histories over several RPs, users and allow lists on the contract-conforming reference store (bare and under every lock wrapper; the shipped single-slot store in 1 run of 8), fault-free and under faults/concurrency; each successful assertion is verified (ECDSA over authData||clientDataHash under the key the simulated RP holds for the returned id, client data, rpIdHash, no AT, id/rawId, user handle) and the no-eligible-credential outcome is checked against a reference model.",
          "The store honours the documented lookup contract (C05 owns the shipped stores)." + TRUST,
          SIM + "seeded ceremony histories, RP account database + signature verification, reference model for eligibility", "DESIGN.md §6 C03"),
  "C04": ("exploration",
-         "The finite product of the property (2688 CTAP-level + 252 WebAuthn-level cells) is enumerated completely, one simulated run per cell with seeded nuisance parameters; the user-validation outcomes are the injected faults; the oracle reads the user-seam and store-seam history (consent precedes every write and every success, flags equal what was reported, error cases leave the store untouched, shown credential signs) and runs a twin world without the matching credential to compare outcomes while consent is missing. Complete over the product, sampled over nuisance parameters.",
+         "The finite product of the property (2688 CTAP-level + 252 WebAuthn-level cells) is enumerated completely, one simulated run per cell with seeded nuisance parameters; the user-validation outcomes are the injected faults; the oracle reads the user-seam and store-seam history (consent precedes every write and every success, flags equal what was reported, error cases leave the store untouched, shown credential signs) and runs a twin world without the matching credential to compare outcomes while consent is missing. One assertion cell run in six has a second authenticator registering a newer credential for the RP on the shared store while the prompt is open. Complete over the product, sampled over nuisance parameters.",
          "The user-validation step is the only source of consent (the library implements no PIN protocol)." + TRUST,
          SIM + "complete enumeration of the consent product, user-seam fault plan, history oracle and twin-world comparison", "DESIGN.md §6 C04"),
  "C05": ("exploration",
@@ -22,7 +22,7 @@ CLAIMED = {
          "The reference store is the executable statement of the documented lookup contract." + TRUST,
          SIM + "seeded ceremony histories on reference and shipped stores, contract comparison at the store seam", "DESIGN.md §6 C05"),
  "C06": ("exploration",
-         "Boundary monitor over every value returned in simulated ceremony runs (successes and the error values produced by injected faults, CTAP2/WebAuthn/U2F/getInfo, Debug of stored passkeys): each rendering (CBOR, JSON, Debug, nested byte strings) is searched for every stored secret as raw bytes, hex, decimal list, base64 and base64url.",
+         "Boundary monitor over every value returned in simulated ceremony runs (successes and the error values produced by injected faults, CTAP2/WebAuthn/U2F/getInfo, Debug of stored passkeys): each rendering (CBOR, JSON, Debug, nested byte strings) is searched for every stored secret as raw bytes, hex, decimal list, base64 and base64url. Histories include requests repeated after a refused store write, U2F re-registrations and hmac-secret-mc inputs; both tiers run two builds of the simulator: the library's default features and its public `testable` feature (which changes derives on the stored-credential types).",
          "Only whole secrets are searched for." + TRUST,
          SIM + "seeded ceremony histories with injected faults, output monitor against secrets read back from the store seam", "DESIGN.md §6 C06"),
  "C07": ("fault_enumeration",
@@ -30,20 +30,20 @@ CLAIMED = {
          "Store errors are raised before any effect (a store that errs after persisting would break the property's own premise)." + TRUST,
          SIM + "seeded executor + store/user seams, systematic fault and cancellation sweep, history oracle", "DESIGN.md §6 C07"),
  "C08": ("exploration",
-         "Seeded histories of 3-30 assertions over credentials with and without counters, with harness edits placing stored counters at 0, 1, 2^31-1, 2^31, 2^32-2, 2^32-1, fault-free (strict per-credential model) and under store errors/cancellations; thorough runs both build profiles (overflow checks on and off).",
+         "Seeded histories of 3-30 assertions over credentials with and without counters, with harness edits placing stored counters at 0, 1, 2^31-1, 2^31, 2^32-2, 2^32-1, fault-free (strict per-credential model) and under store errors/cancellations, on the reference store and on both shipped stores; thorough runs both build profiles (overflow checks on and off).",
          "Single actor: counter races between authenticators belong to C19." + TRUST,
          SIM + "seeded assertion histories with boundary counter edits and store faults, per-credential reference model", "DESIGN.md §6 C08"),
  "C09": ("exploration",
-         "Seeded histories over authenticator configurations (no hmac-secret / UV-only / with non-UV secret, evaluation at creation on/off), verified and unverified ceremonies decided by the user seam, credentials with and without stored secrets, all PRF input shapes incl. the six malformed classes; expected outputs are recomputed with hmac/sha2 from the secrets read back from the store seam; malformed requests must fail with no user/store event in the history.",
+         "Seeded histories over authenticator configurations (no hmac-secret / UV-only / with non-UV secret, evaluation at creation on/off), verified and unverified ceremonies decided by the user seam, credentials with and without stored secrets, all PRF input shapes incl. the six malformed classes; expected outputs are recomputed with hmac/sha2 from the secrets read back from the store seam; malformed requests must fail with no user/store event in the history. Reference store in 3 runs of 4, the shipped stores in the others.",
          "Per-credential keys that decode to the same id are not generated (the library's winner would depend on HashMap order)." + TRUST,
          SIM + "seeded ceremony histories, user-seam verification outcomes, HMAC recomputation from store-seam secrets", "DESIGN.md §6 C09"),
  "C11": ("exploration",
-         "The finite product capability x residentKey x requireResidentKey x credProps (72 cells) plus capability x rk (6 cells) is enumerated completely, each cell a simulated register-then-authenticate history with seeded nuisance parameters; the oracle reads the rk option and the saved record at the store seam.",
+         "The finite product capability x residentKey x requireResidentKey x credProps (72 cells) plus capability x rk (6 cells) is enumerated completely, each cell a simulated register-then-authenticate history with seeded nuisance parameters (incl. a second authenticator keeping the shared store's lock busy, hmac-secret with a prf input riding on the registration, a capability change between the authenticator's first getInfo and the registration); the oracle reads the rk option and the saved record at the store seam.",
          "The WebAuthn L3 residentKey mapping is restated independently in the oracle." + TRUST,
          SIM + "complete enumeration of the discoverability product, store-seam observation", "DESIGN.md §6 C11"),
  "C15": ("fault_enumeration",
-         "Link world: valid in-flight messages produced by the real encoders are damaged by a systematic single-fault sweep (truncation at every offset, every bit of the first 256 bytes, declared-length rewrites at every CBOR header, huge JSON numbers, nesting to 100000, U2F header fields over their range, HID packets of every length 0-130 with rewritten BCNT/seq, drop/dup/swap) and by seeded multi-fault combinations, and fed to every public decoder inside crash-isolated workers with a counting allocator and a watchdog. Borderline for this technique family and said so in DESIGN.md: apart from the stateful HID receiver the decoders are pure functions, so this is fault injection on a simulated link rather than scheduling.",
-         "Bounds: single allocation <= 256 x len + 2 MiB, peak heap <= 512 x len + 16 MiB, <= 10 s of CPU time per case (measured by a watchdog thread; CPU time, so machine load cannot turn into a verdict). The watchdog is the only measured (not computed) quantity in the simulator.",
+         "Link world: valid in-flight messages produced by the real encoders are damaged by a systematic single-fault sweep (truncation at every offset, every bit of the first 256 bytes, declared-length rewrites at every CBOR header, every CBOR item (and for small messages every pair of items) replaced by items of other types and sizes, inputs of 64-512 KiB of repetitive text, huge JSON numbers, nesting to 100000, U2F header fields over their range, HID packets of every length 0-130 with rewritten BCNT/seq, drop/dup/swap) and by seeded multi-fault combinations, and fed to every public decoder inside crash-isolated workers with a counting allocator and a watchdog. Borderline for this technique family and said so in DESIGN.md: apart from the stateful HID receiver the decoders are pure functions, so this is fault injection on a simulated link rather than scheduling.",
+         "Bounds: single allocation <= 256 x len + 2 MiB, peak heap <= 512 x len + 16 MiB, <= 0.25 s + 1 us per input byte of CPU time per case (thread CPU time, so machine load cannot turn into a verdict; a watchdog kills a worker after 10 s of CPU). The watchdog is the only measured (not computed) quantity in the simulator.",
          SIM + "simulated link with systematic wire-fault sweep into every decoder, crash-isolated workers with counting allocator and watchdog", "DESIGN.md §6 C15"),
  "C16": ("exploration",
          "HID world: 2-4 channels write through the real Message::new/Message::send into recording endpoints, a seeded merger decides whose packet the one real ChannelHandler receives next (each channel's order kept); an independent packet decoder checks the wire format and the receiver must return each message exactly once, on its last packet, unaltered. Short streams are expanded into all interleavings in the thorough tier.",
@@ -54,11 +54,11 @@ CLAIMED = {
          "The glue between parsed request and U2fApi (key handle, counter, presence byte) is the simulated token firmware." + TRUST,
          SIM + "simulated U2F host/token exchange with store faults, independent signature verification and encoding comparison", "DESIGN.md §6 C17"),
  "C18": ("exploration",
-         "Twin worlds from one seeded scenario (same store, user plan, fault plan and random byte stream): direct calls vs. calls through Ctap2Api; CBOR of every result pair and the stores must be identical and the trait world must terminate (crash-isolated worker, 8 MiB stack).",
+         "Twin worlds from one seeded scenario (same store, user plan, fault plan and random byte stream): direct calls vs. calls through Ctap2Api; CBOR of every result pair and the stores must be identical and the trait world must terminate (crash-isolated worker, 8 MiB stack). Scenarios vary the authenticator's own configuration (transports, AAGUID, hmac-secret), pinAuth (absent / 16 bytes / zero-length), descriptor types and transports, capability changes between calls, cancellations and store/user faults.",
          "With the same random byte stream key generation and RFC 6979 ECDSA are deterministic, so equal behaviour means byte-identical responses." + TRUST,
          SIM + "twin-world refinement check under identical seeded seams, crash-isolated", "DESIGN.md §6 C18"),
  "C19": ("exploration",
-         "Seeded schedule search: 2-3 real Authenticators on one Arc<tokio::sync::Mutex|RwLock<store>> under a deterministic executor that decides every interleaving at every suspension point; invariants over the recorded history (no deadlock, no lost credential, distinct counters, max = stored). Sampled interleavings, not all.",
+         "Seeded schedule search: 2-3 real Authenticators on one Arc<tokio::sync::Mutex|RwLock<store>> under a deterministic executor that decides every interleaving at every suspension point; invariants over the recorded history (no deadlock, no lost credential, distinct counters incl. silent up=false assertions, max = stored). Sampled interleavings, plus every interleaving of small two-actor scenarios (1 base in 1500).",
          "Executions on a multi-threaded runtime are equivalent to interleavings at await granularity. One genuine defect is listed in known_findings.jsonl (stale counter write-back) and reported as KNOWN-FINDING; any other clause is a VIOLATION." + TRUST,
          SIM + "seeded scheduler over real tokio::sync lock wrappers, history invariants", "DESIGN.md §6 C19"),
 }
